@@ -605,6 +605,11 @@ class ChargingNetwork(BaseSimObj):
 
         if attribute_dict["constraint_matrix"] is not None:
             out_obj.constraint_matrix = np.array(attribute_dict["constraint_matrix"])
+            if out_obj.constraint_matrix.size == 0:
+                # All constraints were removed: keep the empty matrix 2-D (0 x N).
+                out_obj.constraint_matrix = out_obj.constraint_matrix.reshape(
+                    0, len(evses)
+                )
         else:
             out_obj.constraint_matrix = attribute_dict["constraint_matrix"]
         out_obj.magnitudes = np.array(attribute_dict["magnitudes"])
